@@ -155,6 +155,8 @@ pub(crate) fn rem(lhs: &Value, rhs: &Value) -> TeraResult<Value> {
             }
 
             let val = match (left, right) {
+                // `i128::MIN % -1` overflows in the underlying division but the result is 0
+                (Number::Integer(_), Number::Integer(-1)) => Value::from(0i128),
                 (Number::Integer(a), Number::Integer(b)) => match a.checked_rem_euclid(b) {
                     Some(val) => Value::from(val),
                     None => {
@@ -226,6 +228,11 @@ pub(crate) fn pow(lhs: &Value, rhs: &Value) -> TeraResult<Value> {
 
             let val = match (left, right) {
                 (Number::Integer(a), Number::Integer(b)) => {
+                    // Bases whose powers never grow don't need the exponent to fit in a u32
+                    if b > u32::MAX as i128 && (-1..=1).contains(&a) {
+                        let val = if a == -1 && b % 2 == 0 { 1 } else { a };
+                        return Ok(Value::from(val));
+                    }
                     let exp = u32::try_from(b).map_err(|_| {
                         Error::message(format!(
                             "Exponent {b} is out of range for integer ** (must fit in u32)"
